@@ -637,9 +637,19 @@ impl<T: Clone> OrderType<T> {
                     )
                 } else {
                     // Partial match
+                    let reduced = visible_qty - incoming_quantity;
+                    // `with_reduced_quantity` leaves these variants untouched, so the
+                    // reduced quantity is written explicitly
+                    let mut updated = self.with_reduced_quantity(reduced);
+                    match &mut updated {
+                        Self::TrailingStop { quantity, .. }
+                        | Self::PeggedOrder { quantity, .. }
+                        | Self::MarketToLimit { quantity, .. } => *quantity = reduced,
+                        _ => {}
+                    }
                     (
                         incoming_quantity, // consumed all incoming
-                        Some(self.with_reduced_quantity(visible_qty - incoming_quantity)),
+                        Some(updated),
                         0, // not hidden reduced
                         0, // not remaining quantity
                     )
